@@ -119,6 +119,8 @@ def close_text_number(text, expected, sig):
         return False
     if got != got:
         return False
+    if abs(got - expected) < 1e-12:
+        return True
     if expected == 0:
         return abs(got) < 10 ** (-sig)
     mag = math.floor(math.log10(abs(expected)))
